@@ -195,6 +195,12 @@ QMat4(h) == LET r == h[1] i == h[2] j == h[3] k == h[4] IN
      << 2 * (i * k - r * j), 2 * (j * k + r * i), r * r - i * i - j * j + k * k >> >>
 QMat(h)  == LET m == QMat4(h) IN MkM(3, LAMBDA i, j : m[i][j] \div 4)
 
+\* Integer quaternions in general: h = <<r, i, j, k>> # 0 stands for the unit quaternion h / |h|; its rotation matrix is the
+\* matrix of rationals QMat4(h) / HSq(h) (the same formula: QMat4 is homogeneous of degree two).  These rotations have
+\* every angle class: they reach every term of every branch of the matrix-to-quaternion constructor, which the 24 group
+\* elements do not (their half turns are symmetric matrices with at most one non-zero off-diagonal sum).
+IntQuats(E) == [1..4 -> E] \ {<<0, 0, 0, 0>>}
+
 \* ---------------------------------------------------------------------------
 \* laws
 \* ---------------------------------------------------------------------------
@@ -258,6 +264,14 @@ LawHurwitz ==
   /\ \A a \in HUnits, v \in Lattice3 :                                              \* q v conj(q) = R v
         HP(HP(a, <<0, v[1], v[2], v[3]>>), HConj(a)) = <<0, 4 * Apply(QMat(a), v)[1], 4 * Apply(QMat(a), v)[2], 4 * Apply(QMat(a), v)[3]>>
   /\ Cardinality({QMat(a) : a \in HUnits}) = 12
+
+\* QMat4(h) / |h|^2 is a proper rotation, the product of quaternions is the composition, conjugation the transposition
+LawIntQuat(a, b) ==
+  /\ Mul(QMat4(a), Transpose(QMat4(a))) = SMul(HSq(a) * HSq(a), Ident(3))
+  /\ Det(QMat4(a)) = HSq(a) * HSq(a) * HSq(a)
+  /\ QMat4(HP(a, b)) = Mul(QMat4(a), QMat4(b)) /\ HSq(HP(a, b)) = HSq(a) * HSq(b)
+  /\ QMat4(HConj(a)) = Transpose(QMat4(a))
+  /\ Trace(QMat4(a)) = 4 * a[1] * a[1] - HSq(a)                         \* trace = 4 r^2 - 1: the branch condition is |r| < 1/2
 
 \* ---------------------------------------------------------------------------
 \* scaled records: a real number x is recorded as the integer round(x * SC)
